@@ -1,6 +1,7 @@
 Require Extraction.
 Require Import ExtrOcamlBasic.
-From QV Require Import Core.Bits Core.Pauli Core.Symp Core.Code Lattice.RotPlanar
-  Decoders.SmwpmWalk Decoders.SmwpmPath.
+From QV Require Import Core.Bits Core.Pauli Core.Symp Core.Code Lattice.RotPlanar Lattice.RotToric
+  Decoders.SmwpmWalk Decoders.SmwpmPath Decoders.SmwpmToric.
 Extraction "smp.ml" smwpm_path_sites smwpm_path_operator smwpm_assert_ok smwpm_node_ok smwpm_cluster_split
-  smwpm_recovery rotplanar_code syndrome_of.
+  smwpm_recovery rotplanar_code syndrome_of
+  smwpm_toric_cluster_split smwpm_toric_path_operator smwpm_toric_recovery rottoric_code.
